@@ -167,6 +167,11 @@ pub struct Query {
     pub keypos: Vec<i64>,
     pub limit: Option<u64>,
     pub offset: Option<u64>,
+    /// WHERE as a conjunction of atoms (column, operator, constant, constant-on-the-left); the
+    /// python oracle evaluates it on the unfiltered result (C13)
+    pub wh: Vec<(usize, String, DataValue, bool)>,
+    /// for kind U of C13: positions in the select list of the WHERE columns
+    pub whpos: Vec<usize>,
 }
 
 #[derive(Clone, Debug)]
@@ -287,7 +292,7 @@ impl Case {
             .iter()
             .map(|q| {
                 format!(
-                    "(query {} {} {} {} (desc {}) (keypos {}) {} {})",
+                    "(query {} {} {} {} (desc {}) (keypos {}) {} {} (where {}) (whpos {}))",
                     q.qid,
                     q.kind,
                     hex(q.sql.as_bytes()),
@@ -296,6 +301,8 @@ impl Case {
                     q.keypos.iter().map(|b| b.to_string()).collect::<Vec<_>>().join(" "),
                     q.limit.map(|x| x.to_string()).unwrap_or("none".into()),
                     q.offset.map(|x| x.to_string()).unwrap_or("none".into()),
+                    q.wh.iter().map(|(c, op, v, fl)| format!("({} {} {} {})", c, op, canon_value(v), fl)).collect::<Vec<_>>().join(" "),
+                    q.whpos.iter().map(|b| b.to_string()).collect::<Vec<_>>().join(" "),
                 )
             })
             .collect();
@@ -379,6 +386,11 @@ impl Case {
                     keypos: l[6].as_list().unwrap()[1..].iter().map(|x| atom(x).parse().unwrap()).collect(),
                     limit: atom(&l[7]).parse().ok(),
                     offset: atom(&l[8]).parse().ok(),
+                    wh: l.get(9).map(|w| w.as_list().unwrap()[1..].iter().map(|a| {
+                        let a = a.as_list().unwrap();
+                        (atom(&a[0]).parse().unwrap(), atom(&a[1]), parse_val(&atom(&a[2])), atom(&a[3]) == "true")
+                    }).collect()).unwrap_or_default(),
+                    whpos: l.get(10).map(|w| w.as_list().unwrap()[1..].iter().map(|a| atom(a).parse().unwrap()).collect()).unwrap_or_default(),
                 }
             })
             .collect();
